@@ -4,6 +4,7 @@ CONSTANT InitOut <- InitAbsent
 CONSTANT MaxCrashes = 0
 CONSTANT MaxSessions = 1
 CONSTANT NormalExit = TRUE
+CONSTANT MaxWorkerKills = 0
 CONSTANT HeaderOnEmpty = TRUE
 CONSTANT OwnBuffer = TRUE
 CONSTANT HeaderNoClaim = TRUE
